@@ -35,7 +35,7 @@ class MyInt(int):
 
 
 def facts(x, depth=0):
-    fx = {"numlit": False, "n": 0, "d": 1, "ex": 0, "word": "", "badutf8": False, "hastime": False, "extra": False, "items": []}
+    fx = {"numlit": False, "n": 0, "d": 1, "ex": 0, "word": "", "badutf8": False, "empty": False, "hastime": False, "extra": False, "items": []}
     text = None
     if isinstance(x, str):
         text = x
@@ -46,6 +46,7 @@ def facts(x, depth=0):
             fx["badutf8"] = True
             text = bytes(x).decode("utf-8", "ignore")
     if text is not None:
+        fx["empty"] = text == ""
         low = text.lower()
         fx["word"] = "true" if low in TRUE_W else "false" if low in FALSE_W else "null" if low in NULL_W else ""
         try:
@@ -153,6 +154,66 @@ def random_sources(rng, n):
     return out
 
 
+def concretise(x):
+    """a real Python value for a source record of MC_Convert"""
+    k = x["k"]
+    if k == "none":
+        return None
+    if k == "bool":
+        return bool(x["n"])
+    if k == "int":
+        return x["n"]
+    if k == "float":
+        return x["n"] / x["d"]
+    if k == "dec":
+        return D((1 if x["n"] < 0 else 0, tuple(x["dg"]), x["ex"]))
+    if k == "str":
+        return x["s"]
+    if k == "bytes":
+        return b"\xff" if x["s"] == "\\xff" else x["s"].encode()
+    items = [concretise(i) for i in x["items"]]
+    return {"list": list, "tuple": tuple, "set": set}[k](items)
+
+
+def model_stage(ck, tg):
+    """MC_Convert: the converters as transcribed keep the flags' promises on every abstract source (and every antecedent is
+    reachable); the sources, exported by TLC, become cells of the real converters, judged with the others (JudgeP, JudgeM)"""
+    import os
+    import shutil
+    mc = tlc.run("MC_Convert", "MC_Convert.cfg")
+    ck.mc(mc, "MC converters")
+    if mc.invariant_violated:
+        ck.count("model_only_counterexamples")
+        ck.note("model-level counterexample: Convert.tla violates %s" % mc.invariant_violated)
+    wit = tlc.run("MC_Convert", "MC_Convert_witness.cfg", workers=1, extra=("-continue",))
+    names = ["W_Restrict", "W_NoLossInt", "W_NoLossIntRejects", "W_NoLossBool", "W_NoLossBoolRejects", "W_NoCollapse", "W_StrictBytes", "W_Group", "W_GroupRejects"]
+    missing = [w for w in names if "Invariant %s is violated" % w not in wit.output]
+    if missing:
+        raise MachineryError("vacuity: the antecedents %s are unreachable in MC_Convert" % missing)
+    ck.count("model_antecedents_witnessed", len(names))
+    d = tlc.scratch("cv-")
+    try:
+        out = os.path.join(d, "sources.ndjson")
+        tlc.run("Export_Convert", "Export_Convert.cfg", env={"OUT_CASES": out}, workers=1)
+        srcs = [json.loads(l) for l in open(out) if l.strip()]
+    finally:
+        shutil.rmtree(d, ignore_errors=True)
+    cells = []
+    for i, sr in enumerate(srcs):
+        x = concretise(sr["x"])
+        for tname, T, tgroup, tscalar in tg:
+            if tname not in ("int", "float", "bool", "none", "str"):
+                continue
+            c = cell(x, tname, T, tgroup, tscalar)
+            if sr["x"]["k"] != "set":           # the iteration order of a set is not the model's
+                if c["fx"] != sr["fx"] or (c["x"]["k"], c["x"]["n"], c["x"]["d"], len(c["x"]["items"])) != (sr["x"]["k"], sr["x"]["n"], sr["x"]["d"], len(sr["x"]["items"])):
+                    raise MachineryError("universe source %r: the facts the harness computes %r differ from the model's %r" % (x, c["fx"], sr["fx"]))
+            c["id"] = "u%d-%s" % (i, tname)
+            cells.append(c)
+    ck.count("universe_cells_replayed_into_code", len(cells))
+    return cells
+
+
 def main():
     ck = Check("C12")
     thorough = ck.tier == "thorough"
@@ -173,6 +234,7 @@ def main():
                 continue
             c["id"] = "c12-%d" % n
             records.append(c)
+    records += model_stage(ck, tg)
     byid = {c["id"]: c for c in records}
     r = tlc.judge("Trace_Convert", "Trace_Convert.cfg", records, workers=8)
     ck.mc(r, "Trace")
